@@ -77,6 +77,21 @@ impl BufferedBody {
         }
     }
 
+    /// Verification hook (off unless built with `--cfg pavex_verif`): drive the size-limited
+    /// buffering logic with an arbitrary [`hyper::body::Body`] implementation.
+    #[cfg(pavex_verif)]
+    pub async fn verif_extract_with_limit<B>(
+        request_head: &RequestHead,
+        body: B,
+        max_size: ByteUnit,
+    ) -> Result<Self, ExtractBufferedBodyError>
+    where
+        B: hyper::body::Body,
+        B::Error: Into<Box<dyn std::error::Error + Send + Sync>>,
+    {
+        Self::_extract_with_limit(request_head, body, max_size).await
+    }
+
     async fn _extract_with_limit<B>(
         request_head: &RequestHead,
         body: B,
